@@ -142,7 +142,7 @@ def generate(repo):
         return ".custom"
     itype_items = ["(%d, ⟨%s, %s⟩)" % (t, lstr(short(c)), event_kind(c))
                    for t, c in dg._Event._instance_types.items() if isinstance(t, int)]
-    push_items = ["(%d, ⟨%s, %d⟩)" % (info, lstr(short(c)), info)
+    push_items = ["(%d, ⟨%s, %s, %d⟩)" % (info, lstr(short(c)), lstr(c.__name__), info)
                   for info, c in pushbutton._PushbuttonEvent._event_classes.items() if isinstance(info, int)]
 
     # ---- top level and addresses ---------------------------------------------------------------
